@@ -236,6 +236,11 @@ def r14_2(ctx, rc):
     c02.r2_1(ctx, rc)
     c02.r2_4(ctx, rc)
     c02.r2_9(ctx, rc)
+    # an OS error while the cache file is replaced rolls back after the
+    # build function returned: the undo sets and the roles of the caches in
+    # rollback decide what is left behind then (R2.7, R2.8)
+    c02.r2_7(ctx, rc)
+    c02.r2_8(ctx, rc)
 
 
 def release_records_every_dropped_dir(ctx, rc, Rl, counts, gattr):
